@@ -70,9 +70,24 @@ def uniq_jobs(tier):
     return js
 
 
+SYNC_PATCHES = [
+    {"file": "internal/db/merge.go", "anchor": "\toldDoc, err := col.Get(oldCtx, docID, false)\n",
+     "replace": "\toldDoc, err := verifSyncGet(col, oldCtx, docID, false)\n"},
+    {"file": "internal/db/merge.go", "anchor": "\tdoc, err := col.Get(ctx, docID, false)\n\tisDeletedDoc :=",
+     "replace": "\tdoc, err := verifSyncGet(col, ctx, docID, false)\n\tisDeletedDoc :="},
+]
+
+
+def sync_jobs(tier):
+    return [{"id": f"O5.sync-after-merge.unique{u}", "func": "VerifH_C07_SyncAfterMerge", "conf": {"unique": u, "dag": "", "orders": "all", "shortid": 0},
+             "_obligation": "O5", "_covers": ["synced"], "unwind": 80} for u in (0, 1)]
+
+
 PROPERTY = {
     "id": "C07",
     "suites": [
+        dict(_c02.SUITE, name="syncindex", jobs=sync_jobs, patches=SYNC_PATCHES,
+             files=["zz_verif_env.go", "zz_verif_merge.go", "zz_verif_c07uniq.go", "zz_verif_c07maint.go"]),
         dict(_c02.SUITE, name="uniquewrite", jobs=uniq_jobs, files=["zz_verif_env.go", "zz_verif_merge.go", "zz_verif_c07uniq.go", "zz_verif_c07maint.go"]),{"name": "indexfetcher", "pkg": "internal/db/fetcher", "files": ["zz_verif_c03.go", "zz_verif_c07.go"],
                 "common": ["intrinsics", "kvmodel", "dagenv"], "jobs": jobs, "unwind": 40, "witnesses": {"quick": 6, "thorough": 16},
                 "overrides": {"github.com/sourcenetwork/defradb/client.CborNil": "bytes:f6"}}],
